@@ -130,7 +130,14 @@ FileFails(r) ==
       [] r.step = "generations" -> GenFails(r)
       [] r.step = "load" -> IF r.count # r.want THEN {F("file.load", r.want)} ELSE {}
 
+\* every entity handed to serialise() is in the database that comes back
+BinSetFails(r) ==
+    IF r.err # "" THEN {F("bin.raises", "no error")}
+    ELSE IF {r.got[k] : k \in 1..Len(r.got)} # {r.want[k] : k \in 1..Len(r.want)}
+        THEN {F("bin.classes", {r.want[k] : k \in 1..Len(r.want)} \ {r.got[k] : k \in 1..Len(r.got)})} ELSE {}
+
 Fails(r) == CASE r.k = "ent" -> EntFails(r)
+              [] r.k = "binset" -> BinSetFails(r)
               [] r.k = "long" -> LongFails(r)
               [] r.k = "bin" -> BinFails(r)
               [] r.k = "file" -> FileFails(r)
